@@ -49,11 +49,20 @@ FILES = [
 SWAPS = {" < ": [" <= "], " <= ": [" < "], " > ": [" >= "], " >= ": [" > "], " == ": [" != "], " != ": [" == "]}
 
 def sh(cmd, cwd=None, env=None, timeout=3600):
+    """run in its own process group; on timeout the whole group is killed (an engine that loops for ever under a
+    mutant must not keep running after the wrapper gave up)"""
+    import signal
+    p = subprocess.Popen(cmd, cwd=cwd, shell=isinstance(cmd, str), stdout=subprocess.PIPE, stderr=subprocess.STDOUT, text=True, env=env, start_new_session=True)
     try:
-        r = subprocess.run(cmd, cwd=cwd, shell=isinstance(cmd, str), stdout=subprocess.PIPE, stderr=subprocess.STDOUT, text=True, env=env, timeout=timeout)
-        return r.returncode, r.stdout
-    except subprocess.TimeoutExpired as e:
-        return 124, (e.stdout or b"").decode(errors="replace") if isinstance(e.stdout, bytes) else (e.stdout or "")
+        out, _ = p.communicate(timeout=timeout)
+        return p.returncode, out
+    except subprocess.TimeoutExpired:
+        try:
+            os.killpg(p.pid, signal.SIGKILL)
+        except ProcessLookupError:
+            pass
+        out, _ = p.communicate()
+        return 124, out or ""
 
 def sites():
     out = []
@@ -191,7 +200,7 @@ def main():
         verdict, by, detail = None, None, ""
         try:
             for c in s["checks"]:
-                rc, out = sh([os.path.join(verif, "check"), c, "--tier", "quick"], cwd=verif, env=env, timeout=1500)
+                rc, out = sh([os.path.join(verif, "check"), c, "--tier", "quick"], cwd=verif, env=env, timeout=900)
                 viol = [l for l in out.splitlines() if l.startswith("VIOLATION")]
                 if "error[E" in out or "could not compile" in out:
                     verdict = "does not compile"; detail = [l for l in out.splitlines() if l.startswith("error")][:1]
@@ -199,6 +208,11 @@ def main():
                 if rc == 1 and viol:
                     what = [l.strip() for l in out.splitlines() if l.strip().startswith("what:")]
                     verdict, by, detail = "CAUGHT", c, (what[0][:200] if what else "")
+                    break
+                if rc == 124:
+                    # the check did not come back within 15 minutes (quick checks take seconds to a minute): the
+                    # mutant makes the code under test loop; that is noticed, though as a timeout and not as a verdict
+                    verdict, by, detail = "CAUGHT (check does not terminate)", c, "no result within 900 s"
                     break
                 if rc not in (0, 1):
                     # engine trouble under a mutant (a worker killed by the watchdog, ...): neither a catch nor
